@@ -107,12 +107,32 @@ def nlist(xs):
 
 
 def big_str(bs):
-    """Coq term for a possibly large byte string: recognise pattern bodies."""
-    if len(bs) > 64:
-        start = bs[0]
-        if bs == body_bytes(start, len(bs)):
-            return "(pat %d %d)" % (start, len(bs))
-    return str_lit(bs)
+    """Coq term for a possibly large byte string: recognise pattern bodies - also bodies that are a few pattern RUNS one after
+    the other (what an implementation that reorders or repeats parts of a pattern body delivers): the term stays small whatever
+    the implementation did (a 40 KB literal overflows coqc's stack)."""
+    if len(bs) <= 64:
+        return str_lit(bs)
+    runs, i = [], 0
+    while i < len(bs):
+        j = i + 1
+        while j < len(bs) and bs[j] == (bs[j - 1] + 1) % 251 and bs[j - 1] < 251:
+            j += 1
+        runs.append((i, j))
+        i = j
+    parts, lit = [], b""
+    for a, b in runs:
+        if b - a >= 16 and bs[a] < 251:
+            if lit:
+                parts.append(str_lit(lit))
+                lit = b""
+            parts.append("(pat %d %d)" % (bs[a], b - a))
+        else:
+            lit += bs[a:b]
+    if lit:
+        parts.append(str_lit(lit))
+    if len(parts) > 400:        # not pattern-like at all: literal pieces of 1,000 bytes
+        parts = [str_lit(bs[k:k + 1000]) for k in range(0, len(bs), 1000)]
+    return parts[0] if len(parts) == 1 else "(" + " ++ ".join(parts) + ")"
 
 
 def chunks_lit(hexes):
